@@ -198,8 +198,75 @@ func k8sSites() []Site {
 	}
 }
 
+const sct = "pkg/sidecar/targets.go"
+const scs = "pkg/sidecar/service.go"
+const tst = "pkg/target/status.go"
+const scp = "pkg/sidecar/proxy.go"
+
+func sidecarSites() []Site {
+	return []Site{
+		{Name: "idleSet", File: sct, Func: "TargetsManager.updateIdleState", Sel: "if:0:2", Params: "(nStatus : Int) (idleNil : Bool)", Ret: "Bool",
+			Leaves: map[string]string{"len(t.targets.Status)": "nStatus", "t.targets.IdleAt == nil": "idleNil"}},
+		{Name: "idleClear", File: sct, Func: "TargetsManager.updateIdleState", Sel: "if:1:2", Params: "(nStatus : Int)", Ret: "Bool",
+			Leaves: map[string]string{"len(t.targets.Status)": "nStatus"}},
+		{Name: "statusIsNew", File: sct, Func: "TargetsManager.updateStatus", Sel: "if:0:2", Params: "(present : Bool)", Ret: "Bool",
+			Leaves: map[string]string{"t.targets.Status[tar.Hash] == nil": "!present"}},
+		{Name: "freshSeries", File: sct, Func: "TargetsManager.updateStatus", Sel: "call:target.NewScrapeStatus:0:0", Params: "(tarSeries tarTotal : Int)", Ret: "Int",
+			Leaves: map[string]string{"tar.Series": "tarSeries", "tar.TotalSeries": "tarTotal"}},
+		{Name: "freshTotal", File: sct, Func: "TargetsManager.updateStatus", Sel: "call:target.NewScrapeStatus:0:1", Params: "(tarSeries tarTotal : Int)", Ret: "Int",
+			Leaves: map[string]string{"tar.Series": "tarSeries", "tar.TotalSeries": "tarTotal"}},
+		{Name: "resetCond", File: sct, Func: "TargetsManager.updateStatus", Sel: "if:1:2", Params: "(cur req : TState)", Ret: "Bool",
+			Leaves: map[string]string{"status[tar.Hash].TargetState": "cur", "tar.TargetState": "req",
+				"target.StateNormal": "TState.normal", "target.StateInTransfer": "TState.inTransfer"}},
+		{Name: "resetTo", File: sct, Func: "TargetsManager.updateStatus", Sel: "assign:status[tar.Hash].ScrapeTimes:0", Params: "", Ret: "Nat"},
+		{Name: "stateTo", File: sct, Func: "TargetsManager.updateStatus", Sel: "assign:status[tar.Hash].TargetState:0", Params: "(req : TState)", Ret: "TState",
+			Leaves: map[string]string{"tar.TargetState": "req"}},
+		// service.go runtimeInfo
+		{Name: "rtMinAdd", File: scs, Func: "Service.runtimeInfo", Sel: "assign:min:1", Params: "(min rSeries : Int)", Ret: "Int",
+			Leaves: map[string]string{"r.Series": "rSeries"}},
+		{Name: "rtTotalAdd", File: scs, Func: "Service.runtimeInfo", Sel: "assign:total:1", Params: "(total rTotal : Int)", Ret: "Int",
+			Leaves: map[string]string{"r.TotalSeries": "rTotal"}},
+		{Name: "rtFloor", File: scs, Func: "Service.runtimeInfo", Sel: "if:1:2", Params: "(series min : Int)", Ret: "Bool"},
+		{Name: "rtFloorTo", File: scs, Func: "Service.runtimeInfo", Sel: "assign:series:0", Params: "(min : Int)", Ret: "Int"},
+		{Name: "rtHead", File: scs, Func: "Service.runtimeInfo", Sel: "assign:HeadSeries:0", Params: "(series total : Int)", Ret: "Int"},
+		{Name: "rtProc", File: scs, Func: "Service.runtimeInfo", Sel: "assign:ProcessSeries:0", Params: "(series total : Int)", Ret: "Int"},
+		{Name: "rtIdle", File: scs, Func: "Service.runtimeInfo", Sel: "assign:IdleStartAt:0", Ret: "text"},
+		// status.go
+		{Name: "windowRoom", File: tst, Func: "ScrapeStatus.UpdateScrapeResult", Sel: "if:0:1", Params: "(n : Int)", Ret: "Bool",
+			Leaves: map[string]string{"len(t.lastSeries)": "n"}},
+		{Name: "windowDrop", File: tst, Func: "ScrapeStatus.UpdateScrapeResult", Sel: "call:append:1:1", Ret: "text"},
+		{Name: "meanOf", File: tst, Func: "ScrapeStatus.UpdateScrapeResult", Sel: "assign:t.Series:0", Params: "(total n : Int)", Ret: "Int",
+			Leaves: map[string]string{"len(t.lastSeries)": "n"}},
+		{Name: "totalOf", File: tst, Func: "ScrapeStatus.UpdateScrapeResult", Sel: "assign:t.TotalSeries:0", Params: "(rTotal : Int)", Ret: "Int",
+			Leaves: map[string]string{"r.Total": "rTotal"}},
+		{Name: "pushedValue", File: tst, Func: "ScrapeStatus.UpdateScrapeResult", Sel: "call:append:0:1", Params: "(rScraped : Int)", Ret: "Int",
+			Leaves: map[string]string{"r.ScrapedTotal": "rScraped"}},
+		{Name: "errIsNil", File: tst, Func: "ScrapeStatus.SetScrapeErr", Sel: "if:0:1", Params: "(errNil : Bool)", Ret: "Bool",
+			Leaves: map[string]string{"err == nil": "errNil"}},
+		{Name: "healthOk", File: tst, Func: "ScrapeStatus.SetScrapeErr", Sel: "assign:t.Health:0", Params: "", Ret: "Health",
+			Leaves: map[string]string{"scrape.HealthGood": "Health.good", "scrape.HealthBad": "Health.bad"}},
+		{Name: "healthErr", File: tst, Func: "ScrapeStatus.SetScrapeErr", Sel: "assign:t.Health:1", Params: "", Ret: "Health",
+			Leaves: map[string]string{"scrape.HealthGood": "Health.good", "scrape.HealthBad": "Health.bad"}},
+		// scraper.go StatisticSeries
+		{Name: "statTotalNext", File: "pkg/scrape/scraper.go", Func: "StatisticSeries", Sel: "incdec:result.Total:0", Params: "(total : Nat)", Ret: "Nat",
+			Leaves: map[string]string{"result.Total": "total"}},
+		{Name: "statScrapedNext", File: "pkg/scrape/scraper.go", Func: "StatisticSeries", Sel: "incdec:result.ScrapedTotal:0", Params: "(scraped : Nat)", Ret: "Nat",
+			Leaves: map[string]string{"result.ScrapedTotal": "scraped"}},
+		{Name: "statMetricTotalNext", File: "pkg/scrape/scraper.go", Func: "StatisticSeries", Sel: "incdec:result.MetricsTotal[n].Total:0", Params: "(total : Nat)", Ret: "Nat",
+			Leaves: map[string]string{"result.MetricsTotal[n].Total": "total"}},
+		{Name: "statMetricScrapedNext", File: "pkg/scrape/scraper.go", Func: "StatisticSeries", Sel: "incdec:result.MetricsTotal[n].Scraped:0", Params: "(scraped : Nat)", Ret: "Nat",
+			Leaves: map[string]string{"result.MetricsTotal[n].Scraped": "scraped"}},
+		{Name: "statKeep", File: "pkg/scrape/scraper.go", Func: "StatisticSeries", Sel: "if:1:2", Params: "(kept : Bool)", Ret: "Bool",
+			Leaves: map[string]string{"newSets != nil": "kept"}},
+		// proxy.go
+		{Name: "timesNext", File: scp, Func: "Proxy.ServeHTTP", Sel: "incdec:tar.ScrapeTimes:0", Params: "(times : Nat)", Ret: "Nat",
+			Leaves: map[string]string{"tar.ScrapeTimes": "times"}},
+	}
+}
+
 func modules() []Module {
 	return []Module{
+		{Path: "Kvass/Gen/Sidecar.lean", NS: "Kvass.Gen.Sidecar", Imports: []string{"Kvass.Types"}, Global: map[string]string{}, Sites: sidecarSites()},
 		{Path: "Kvass/Gen/K8s.lean", NS: "Kvass.Gen.K8s", Imports: []string{"Kvass.Types"}, Global: map[string]string{}, Sites: k8sSites()},
 		{Path: "Kvass/Gen/Coord.lean", NS: "Kvass.Gen", Imports: []string{"Kvass.Types"}, Global: coordGlobal, Sites: coordSites()},
 	}
